@@ -169,8 +169,10 @@ fn c28_zip_truncates_to_shortest() {
 //@  tail: sep
 //@end
 
+// (element type instantiated at u8: a Vec<css::Value> plus its drop glue
+// makes CBMC run out of memory; the loop does not depend on the type)
 //@range file=rsass/src/sass/functions/list.rs fn=create_module from="for (i, v) in v.iter().enumerate() {" until="\n        }\n"
-//@  header: fn snippet_list_index(v: Vec<Value>, value: Value) -> Result<Value, CallError>
+//@  header: fn snippet_list_index(v: Vec<u8>, value: u8) -> Result<Value, CallError>
 //@end
 
 /// C28: list.separator — comma / slash / space; maps and argument lists act
@@ -198,18 +200,140 @@ fn pos_of(r: Result<Value, CallError>) -> Option<i64> {
     }
 }
 /// C28: list.index gives the first 1-based position of an `==` element, or
-/// null.  One call per harness (a Vec<Value> plus its drop glue is about as
-/// much as CBMC takes).
-macro_rules! index_case {
-    ($name:ident, $list:expr, $value:expr, $want:expr) => {
-        #[kani::proof]
-        #[kani::unwind(4)]
-        fn $name() {
-            assert!(pos_of(snippet_list_index($list, $value)) == $want, "index: first 1-based position of an == element, null when absent");
+/// null.  Lists of at most 4 elements, all element values.
+#[kani::proof]
+#[kani::unwind(6)]
+fn c28_index_first_position() {
+    let e: [u8; 4] = kani::any();
+    let n: usize = kani::any();
+    kani::assume(n <= 4);
+    let x: u8 = kani::any();
+    let got = pos_of(snippet_list_index(e[..n].to_vec(), x));
+    let mut want = None;
+    let mut k = n;
+    while k > 0 {
+        k -= 1;
+        if e[k] == x {
+            want = Some(k as i64 + 1);
         }
-    };
+    }
+    assert!(got == want, "index: first 1-based position of an == element, null when absent");
 }
-index_case!(c28_index_first_of_equal_elements, vec![Value::Null, Value::Null], Value::Null, Some(1));
-index_case!(c28_index_second_position, vec![Value::False, Value::True], Value::True, Some(2));
-index_case!(c28_index_absent_is_null, vec![Value::False], Value::True, None);
-index_case!(c28_index_empty_list, Vec::new(), Value::True, None);
+
+// ---- whole closures (bounded): complete bodies of list.join, append and
+// set-nth, extracted each run with the argument fetches replaced by
+// parameters.  The element type is instantiated at u8 (a Vec<css::Value>
+// makes CBMC run out of memory): listed substitutions `get_list(` ->
+// `parts(` (destructures the harness's list type; get_list itself is
+// c28_get_list_shape) and `Value::List(` -> `L::new(`.  Separator, brackets
+// and the `$bracketed` argument (a real css::Value) are as in the source. ----
+#[derive(Clone)]
+struct L {
+    items: Vec<u8>,
+    sep: Option<ListSeparator>,
+    bra: bool,
+}
+impl L {
+    fn new(items: Vec<u8>, sep: Option<ListSeparator>, bra: bool) -> Self {
+        Self { items, sep, bra }
+    }
+}
+fn parts(l: L) -> (Vec<u8>, Option<ListSeparator>, bool) {
+    (l.items, l.sep, l.bra)
+}
+
+//@range file=rsass/src/sass/functions/list.rs fn=create_module from="let (mut list1, sep1, bra1) = get_list(s.get(name!(list1))?);" until="\n        }\n    );"
+//@  header: fn snippet_join(list1_arg: L, list2_arg: L, separator_arg: Option<ListSeparator>, bracketed_arg: Value) -> Result<L, ()>
+//@  subst: get_list( => parts(
+//@  subst: Value::List( => L::new(
+//@  subst: s.get(name!(list1))? => list1_arg
+//@  subst: s.get(name!(list2))? => list2_arg
+//@  subst: s\n                .get_map(name!(separator), check_separator)? => separator_arg
+//@  subst: s.get(name!(bracketed))? => bracketed_arg
+//@end
+
+//@range file=rsass/src/sass/functions/list.rs fn=create_module from="let (mut list, sep, bra) = get_list(s.get(name!(list))?);\n        let sep = s" until="\n    });"
+//@  header: fn snippet_append(list_arg: L, val_arg: u8, separator_arg: Option<ListSeparator>) -> Result<L, ()>
+//@  subst: get_list( => parts(
+//@  subst: Value::List( => L::new(
+//@  subst: s.get(name!(list))? => list_arg
+//@  subst: s\n            .get_map(name!(separator), check_separator)? => separator_arg
+//@  subst: s.get(name!(val))? => val_arg
+//@end
+
+//@range file=rsass/src/sass/functions/list.rs fn=create_module from="let (mut list, sep, bra) = get_list(s.get(name!(list))?);\n        let i = s.get_map(name!(n)" until="\n    });"
+//@  header: fn snippet_set_nth(list_arg: L, n_arg: Value, value_arg: u8) -> Result<L, ()>
+//@  subst: get_list( => parts(
+//@  subst: Value::List( => L::new(
+//@  subst: s.get(name!(list))? => list_arg
+//@  subst: s.get_map(name!(n), |v| index_of(v, list.len()))? => index_of(n_arg, list.len()).unwrap()
+//@  subst: s.get(name!(value))? => value_arg
+//@end
+
+fn auto() -> Value {
+    Value::Literal(crate::css::CssString::new(String::from("auto"), crate::value::Quotes::None))
+}
+/// C28: join concatenates the elements in order, takes the separator from
+/// the explicit argument or else the first list that has one, and the
+/// brackets from the explicit argument or else the FIRST list.
+#[kani::proof]
+#[kani::unwind(6)]
+fn c28_join_concatenates() {
+    let (s1, s2, e) = (any_sep(), any_sep(), any_sep());
+    let (b1, b2): (bool, bool) = (kani::any(), kani::any());
+    let (x, y, z): (u8, u8, u8) = (kani::any(), kani::any(), kani::any());
+    match snippet_join(L::new(vec![x], s1, b1), L::new(vec![y, z], s2, b2), e, auto()) {
+        Ok(r) => {
+            assert!(r.items.len() == 3 && r.items[0] == x && r.items[1] == y && r.items[2] == z, "join: elements of both lists, in order");
+            assert!(r.sep == Some(e.or(s1).or(s2).unwrap_or(ListSeparator::Space)), "join: separator choice");
+            assert!(r.bra == b1, "join: brackets of the first list when $bracketed is auto");
+        }
+        Err(_) => assert!(false, "join gives a list"),
+    }
+}
+#[kani::proof]
+#[kani::unwind(6)]
+fn c28_join_empty_first_list_does_not_take_brackets_of_second() {
+    let s2 = any_sep();
+    match snippet_join(L::new(vec![], None, false), L::new(vec![7], s2, true), None, auto()) {
+        Ok(r) => {
+            assert!(r.items.len() == 1 && !r.bra, "join((), [c]): brackets come from the first list only");
+            assert!(r.sep == Some(s2.unwrap_or(ListSeparator::Space)));
+        }
+        Err(_) => assert!(false, "join gives a list"),
+    }
+}
+/// C28: append adds the value at the end, keeps brackets, separator from
+/// the explicit argument, else the list's, else space.
+#[kani::proof]
+#[kani::unwind(6)]
+fn c28_append_adds_at_end() {
+    let (s1, e) = (any_sep(), any_sep());
+    let b1: bool = kani::any();
+    let (x, y, z): (u8, u8, u8) = (kani::any(), kani::any(), kani::any());
+    match snippet_append(L::new(vec![x, y], s1, b1), z, e) {
+        Ok(r) => {
+            assert!(r.items.len() == 3 && r.items[0] == x && r.items[1] == y && r.items[2] == z, "append: the value goes last, the rest is unchanged");
+            assert!(r.sep == Some(e.or(s1).unwrap_or(ListSeparator::Space)) && r.bra == b1, "append: separator choice, brackets kept");
+        }
+        Err(_) => assert!(false, "append gives a list"),
+    }
+}
+/// C28: set-nth changes only the addressed element; separator (also an
+/// undecided one) and brackets stay.
+#[kani::proof]
+#[kani::stub(std::fmt::format, format_stub)]
+#[kani::unwind(6)]
+fn c28_set_nth_changes_only_addressed_element() {
+    let s1 = any_sep();
+    let b1: bool = kani::any();
+    let (x, y, z, v): (u8, u8, u8, u8) = (kani::any(), kani::any(), kani::any(), kani::any());
+    let n: i64 = if kani::any() { 2 } else { -2 };
+    match snippet_set_nth(L::new(vec![x, y, z], s1, b1), Value::scalar(n), v) {
+        Ok(r) => {
+            assert!(r.items.len() == 3 && r.items[0] == x && r.items[1] == v && r.items[2] == z, "set-nth(l, 2, v) / set-nth(l, -2, v): only the second of three elements changes");
+            assert!(r.sep == s1 && r.bra == b1, "set-nth keeps separator (decided or not) and brackets");
+        }
+        Err(_) => assert!(false, "set-nth gives a list"),
+    }
+}
